@@ -64,10 +64,23 @@ def status_table():
     return '\n'.join(head + rows)
 
 
+def asbuilt():
+    man = json.load(open(os.path.join(HERE, 'MANIFEST.json')))
+    out = []
+    for c in man['checks']:
+        out.append('**{}** — *{}*'.format(c['property_id'], c.get('technique', '')))
+        out.append('')
+        out.append('Claim: ' + c['level_claimed']['text'])
+        out.append('')
+        out.append('Tie / trusted: ' + c['level_note'].split('The model is tied to /repo by ')[-1])
+        out.append('')
+    return '\n'.join(out)
+
+
 def main():
     path = os.path.join(HERE, 'DESIGN.md')
     s = open(path).read()
-    for name, fn in [('FINDINGS', findings_tables), ('SEEDED', seeded_table), ('STATUS', status_table)]:
+    for name, fn in [('FINDINGS', findings_tables), ('SEEDED', seeded_table), ('STATUS', status_table), ('ASBUILT', asbuilt)]:
         b, e = '<!-- BEGIN {} -->'.format(name), '<!-- END {} -->'.format(name)
         if b in s and e in s:
             s = s[:s.index(b) + len(b)] + '\n' + fn() + '\n' + s[s.index(e):]
